@@ -351,7 +351,7 @@ func (e *Engine) solveAll(o *checkOpts) {
 	if o.dumpDir != "" {
 		os.MkdirAll(o.dumpDir, 0o755)
 		for i, ob := range e.obls {
-			os.WriteFile(filepath.Join(o.dumpDir, fmt.Sprintf("%04d-%s.smt2", i, sanitizeFile(ob.Name))), []byte(ob.Script), 0o644)
+			os.WriteFile(filepath.Join(o.dumpDir, fmt.Sprintf("%04d-%s.smt2", i, sanitizeFile(ob.Name))), []byte(ob.FullScript()), 0o644)
 		}
 	}
 	if len(o.props) > 0 {
@@ -423,7 +423,7 @@ func (e *Engine) solveSet(o *checkOpts, obls []*Obligation) {
 					}
 				}
 				for _, ob := range covers {
-					r := runSolver(context.Background(), solvers[0], ob.Script, 1500*time.Millisecond)
+					r := runSolver(context.Background(), solvers[0], ob.FullScript(), 1500*time.Millisecond)
 					ob.Result, ob.Tried = r, []SolveResult{r}
 				}
 				if len(goals) == 0 {
@@ -476,7 +476,7 @@ func (e *Engine) solveSet(o *checkOpts, obls []*Obligation) {
 		go func() {
 			defer wg2.Done()
 			for ob := range ch2 {
-				ob.Result, ob.Tried = solve(ob.Script, o.timeout, o.tier == "thorough")
+				ob.Result, ob.Tried = solve(ob.FullScript(), o.timeout, o.tier == "thorough")
 			}
 		}()
 	}
@@ -603,7 +603,7 @@ func (e *Engine) report(o *checkOpts, units []*Unit, start time.Time, loadSecs, 
 				nDis++
 				solverWins[ob.Result.Solver]++
 				if len(samples) < 6 && ob.Result.Solver != "simplifier" {
-					samples = append(samples, map[string]any{"obligation": ob.Name, "source": ob.Src, "smt_bytes": len(ob.Script), "solver": ob.Result.Solver, "seconds": round3(ob.Result.Seconds), "path": strings.Join(ob.Trace, " ")})
+					samples = append(samples, map[string]any{"obligation": ob.Name, "source": ob.Src, "smt_bytes": len(ob.Prefix) + len(ob.Goal), "solver": ob.Result.Solver, "seconds": round3(ob.Result.Seconds), "path": strings.Join(ob.Trace, " ")})
 				}
 			case "sat":
 				fails = append(fails, failure{name: ob.Name, reason: "refuted", detail: ob.Result.Model, ob: ob})
@@ -730,8 +730,12 @@ func (e *Engine) report(o *checkOpts, units []*Unit, start time.Time, loadSecs, 
 			for i := 0; i < len(sl) && i < 8; i++ {
 				fmt.Printf("  SLOW %.2fs %s %s\n", sl[i].s, sl[i].st, sl[i].n)
 			}
+			seenF := map[string]int{}
 			for _, f := range fails {
-				fmt.Printf("  FAIL %s [%s]\n", f.name, f.reason)
+				seenF[f.name+" ["+f.reason+"]"]++
+			}
+			for k, n := range seenF {
+				fmt.Printf("  FAIL x%d %s\n", n, k)
 			}
 		}
 	}
@@ -797,7 +801,7 @@ func (e *Engine) writeReplay(o *checkOpts, prop, obligation, reason, detail stri
 		}
 		r["solvers_tried"] = tried
 		sp := strings.TrimSuffix(p, ".json") + ".smt2"
-		os.WriteFile(sp, []byte(ob.Script), 0o644)
+		os.WriteFile(sp, []byte(ob.FullScript()), 0o644)
 		r["smt_script"] = sp
 	}
 	data, _ := json.MarshalIndent(r, "", " ")
